@@ -1,9 +1,13 @@
+import SignaloModel.Proofs.CascadeProofs
 import SignaloModel.Proofs.FirProofs
 import SignaloModel.Proofs.TableChecks
 /-!
 # C07 — Daubechies analysis followed by synthesis reconstructs the signal
 
-Property theorems for C07 (statements are printed by `#check`, axioms by `#print axioms`;
+Property theorems for C07 (statements are printed by `#check`, axioms by `#check @Fir.cascade_kernel
+#check @Fir.convL_residual_bound
+#check @Tables.db_reconstructs
+#print axioms`;
 `bin/check C07` re-elaborates this file on every run and audits the axiom lists).
 -/
 open SignaloModel
@@ -25,3 +29,6 @@ open SignaloModel
 #print axioms Tables.db_high_gain
 #print axioms Tables.db_low_gain
 #print axioms Tables.db_lengths
+#print axioms Fir.cascade_kernel
+#print axioms Fir.convL_residual_bound
+#print axioms Tables.db_reconstructs
